@@ -28,6 +28,8 @@ func C12(c *Ctx) int {
 		c.Infraf("%v", err)
 	}
 	shapes := gen.SubShapes()
+	// the parent's next condition reads a variable an inner activity wrote
+	shapes = append(shapes, gen.OtherWriterShapes("sub")...)
 	if err := c.TokenGameRound(fs, shapes, RoundOpts{Label: "shapes", MaxSteps: 9, MaxPerProg: 20}); err != nil {
 		c.Infraf("%v", err)
 	}
